@@ -1,48 +1,3 @@
-"""C18 (shares the layout model with C17): chart layout. Proof: Properties/C17.v, C18.v over Model/Layout.v; tie: exact coordinates of
-model and implementation on generated DAGs; search oracle: the property checked directly on the
-implementation's output."""
-import random, json
-import common, kernel
-from corr import layout as L
-
-LEVEL = "proof"
-PROP_FILTER = {"C17": ("C17",), "C18": ("C18",)}
-
-
-def run(ctx):
-    ok, thms, log = kernel.proof_step(ctx)
-    rng = random.Random(ctx.seed)
-    n = 900 if ctx.tier == "quick" else 12000
-    cases = L.gen_cases(rng, n, exhaustive_upto=4 if ctx.tier == "quick" else 5)
-    if getattr(ctx, "replay_file", None):
-        cases = [json.load(open(ctx.replay_file))["case"]]
-    failing, results, evaluated = kernel.corr_step(ctx, L, cases, 300, "layout")
-    # the property itself, checked on the implementation's own output
-    spec_bad = []
-    for i, (c, r) in enumerate(zip(cases, results)):
-        msg = L.spec_check(c, r)
-        if msg and msg.startswith(ctx.prop if ctx.prop in ("C17", "C18") else ""):
-            spec_bad.append((i, msg))
-        elif msg and ctx.prop == "C17" and not msg.startswith("C18"):
-            spec_bad.append((i, msg))
-    cov = ctx.coverage
-    cov.update({"evaluations": len(cases), "distinct_nontrivial": len(set(json.dumps(c, sort_keys=True) for c in cases if len(c["edges"]) >= 2)),
-                "rule": "DAGs: exhaustive up to %d nodes (all edge subsets of a topological order, relabelled, listing orders shuffled), then random/layered/comb DAGs up to 40 nodes with parallel edges; non-trivial = at least two edges; distinct by (nodes, edges) listing" % (4 if ctx.tier == "quick" else 5),
-                "samples": [{"case": cases[i], "implementation": results[i]} for i in (0, len(cases) // 2, len(cases) - 1)],
-                "disagreements_checked": len(failing), "stats": L.case_stats(cases, results) if hasattr(L, "case_stats") else {},
-                "trusted_base": ["corr/layout.py: graph generator, runner of DependencyChartLayout.from_graph_data, printer of cases as Coq terms",
-                                 "model fixes node_height=2, node_spacing=1 (the defaults DependencyGraph uses); ascending iteration of a set of small ints; y in halves"]})
-    reported = set()
-    for i, msg in spec_bad[:3]:
-        reported.add(i)
-        ctx.violation({"what": "the implementation's layout violates the property", "detail": msg, "case": cases[i], "implementation": results[i]})
-    if not spec_bad:
-        for i in failing[:3]:
-            # model and implementation differ, property still holds on this output
-            ctx.violation({"what": "correspondence T3 layout: model and implementation disagree; the property holds on the implementation's output for this input",
-                           "case": cases[i], "implementation": results[i],
-                           "correspondence": "OIS.Model.Layout.layout vs DependencyChartLayout.from_graph_data"}, no_input=True)
-    if not evaluated and not ctx.violations:
-        kernel.obligation_violation(ctx, thms, "; ".join(ctx.notes[-2:]), {"correspondence": "Coq evaluation of layout cases failed"})
-    if not ok and not ctx.violations:
-        kernel.obligation_violation(ctx, thms, log)
+"""C18 (shares the layout model, the correspondence and the same-instance histories with C17; see checks/c17.py,
+which selects theorems, spec clauses and messages by ctx.prop)."""
+from checks.c17 import run, LEVEL  # noqa
